@@ -150,6 +150,13 @@ MUTANTS = [
     {"id": "C18-add-method-keeps-cache", "prop": "C18", "edits": [
         R(MULTI, "            self._methods = self._methods.assoc(key, method)\n            self._reset_cache()",
           "            self._methods = self._methods.assoc(key, method)\n            self._cache = self._cache.assoc(key, method)")]},
+    {"id": "C18-global-underive-discards-result", "prop": "C18", "edits": [
+        R(CORE, "   (alter-var-root #'global-hierarchy underive tag parent)\n   nil)", "   (underive global-hierarchy tag parent)\n   nil)")]},
+    {"id": "C18-default-hierarchy-is-a-snapshot", "prop": "C18", "edits": [
+        R(MULTI, "        self._hierarchy: IRef[IPersistentMap] = hierarchy or runtime.Var.find_safe(\n            _GLOBAL_HIERARCHY_SYM\n        )\n",
+          "        self._hierarchy: IRef[IPersistentMap] = hierarchy or runtime.Var.find_safe(\n            _GLOBAL_HIERARCHY_SYM\n        )\n        if hierarchy is None:\n            from basilisp.lang import atom as _atom\n            self._hierarchy = _atom.Atom(self._hierarchy.deref())\n")]},
+    {"id": "C18-custom-default-ignored", "prop": "C18", "edits": [
+        R(MULTI, "                best_method = self._methods.val_at(self._default)", "                from basilisp.lang import keyword as _kw\n                best_method = self._methods.val_at(_kw.keyword(\"default\"))")]},
     {"id": "C18-underive-keeps-descendants", "prop": "C18", "edits": [
         R(CORE, "                   (make-hierarchy))))))\n\n;;;;;;;;;;;;;;;;;;\n;; Multimethods ;;", "                   (assoc (make-hierarchy) :descendants (:descendants h)))))))\n\n;;;;;;;;;;;;;;;;;;\n;; Multimethods ;;")]},
     {"id": "C18-derive-forgets-transitive-ancestors", "prop": "C18", "edits": [
